@@ -224,6 +224,13 @@ def monEvent (id : String) (a : DAcc) (m : Mon) (toks : List String) : DAcc × M
       | .cmp facet what mo im => .cmp (facet ++ "~midpoll") what mo im
       | x => x)
     let (p', n2) := predFut m.x m.p e
+    -- coop sessions after a failure: a done-send that tokio's budget parked is lost when the failing
+    -- function closes the channel first, so WHICH independent functions are still released depends on
+    -- where in the burst the budget ran out; the model (no budget) fixes one answer.  Comparisons are
+    -- recorded under facets no property depends on; every specification predicate still applies.
+    let n1 := if m.x.coop && !p'.realFailed.isEmpty then n1.map (fun n => match n with
+      | .cmp facet what mo im => .cmp (if facet.endsWith "~coopfail" || facet.endsWith "~midpoll" then facet else facet ++ "~coopfail") what mo im
+      | x => x) else n1
     let fin := match e with
       | .retOutcome .. => true | .retErr _ => true | .panic => true | .aborted => true | .livelock => true | _ => false
     (applyNotes id pre (applyNotes id pre a n1) n2, { m with t := t', p := p', active := m.active && !fin })
